@@ -25,6 +25,16 @@ SHARDS = {"quick": 4, "thorough": 16}
 
 def operand(spec):
     """spec: {"str": "..."} or {"desc": [...]} -> (real value, cells)"""
+    if "concat" in spec:
+        # the result of an earlier + (FmtStr and plain str operands in any order) used as an operand itself
+        from curtsies.formatstring import FmtStr
+
+        parts = [operand(x) for x in spec["concat"]]
+        val, cs = FmtStr(), []
+        for v, c in parts:
+            val = val + v
+            cs = cs + c
+        return val, cs
     if "str" in spec:
         if spec.get("sub"):
             # a str subclass instance is a str: its characters count, not what its __str__ prints
@@ -54,14 +64,19 @@ def run_case(case):
     res = Res()
     op = case["op"]
     if op == "slices":
-        desc = case["desc"]
-        f = build_any(desc, case.get("build", "chunks"), case.get("obs", 0))
+        if "value" in case:
+            f, base = operand(case["value"])
+            desc = [[text_of([c]), {"fg": c[1]} if c[1] else {}] for c in base]  # (only used to place the bounds)
+            res.label("slices_of_an_earlier_result")
+        else:
+            desc = case["desc"]
+            f = build_any(desc, case.get("build", "chunks"), case.get("obs", 0))
+            base = cells_of_desc(desc)
         if case.get("sub"):
             f = as_subclass(f)
             res.label("fmtstr_subclass_instance")
         if case.get("obs") or case.get("build") in gen.DERIVED_BUILDS:
             res.label("operand_with_history")
-        base = cells_of_desc(desc)
         n = len(base)
         if n <= 10:
             bounds = [None] + list(range(-n - 2, n + 3))
@@ -173,7 +188,12 @@ def strategy():
         st.fixed_dictionaries({"str": gen.plain_str(4), "sub": st.sampled_from([0, 0, 0, 1, 2])}),
     )
     fs = st.fixed_dictionaries({"desc": d, "build": gen.BUILDS, "obs": gen.OBS, "sub": SUB})
+    composed = st.fixed_dictionaries({"concat": st.lists(operand_s, min_size=2, max_size=3)})
     return st.one_of(
+        st.fixed_dictionaries({"op": st.just("slices"), "value": composed}),
+        st.fixed_dictionaries({"op": st.just("mul"), "value": composed, "n": st.integers(0, 3)}),
+        st.fixed_dictionaries({"op": st.just("add"), "left": composed, "right": operand_s}),
+        st.fixed_dictionaries({"op": st.just("join"), "sep": st.one_of(fs, composed), "items": st.lists(st.one_of(operand_s, composed), max_size=4)}),
         st.fixed_dictionaries({"op": st.just("slices"), "desc": d, "build": gen.BUILDS, "obs": gen.OBS, "sub": SUB}),
         st.fixed_dictionaries({"op": st.just("slices"), "desc": d, "build": gen.BUILDS, "obs": gen.OBS, "sub": SUB}),
         st.fixed_dictionaries({"op": st.just("add"), "left": operand_s, "right": fs}),
